@@ -172,6 +172,8 @@ package ovsdb
 
 //@ func ResultFromError
 //@ requires err != nil
+// a generic Error is only built from a wire result whose error string is not empty
+//@ requires istype(err, "*Error") ==> unbox(err, "*Error").name != ""
 //@ modifies nothing
 //@ may_panic
 //@ ensures result.Error != "" && result.Count == 0 && len(result.Rows) == 0
@@ -183,6 +185,7 @@ package ovsdb
 //@ ensures istype(err, "*DomainError") ==> (result.Error == "domain error" && result.Details == unbox(err, "*DomainError").details)
 //@ ensures istype(err, "*RangeError") ==> (result.Error == "range error" && result.Details == unbox(err, "*RangeError").details)
 //@ ensures istype(err, "*TimedOut") ==> (result.Error == "timed out" && result.Details == unbox(err, "*TimedOut").details)
+//@ ensures istype(err, "*Error") ==> (result.Error == unbox(err, "*Error").name && result.Details == unbox(err, "*Error").details)
 //@ ensures istype(err, "*NotSupported") ==> (result.Error == "not supported" && result.Details == unbox(err, "*NotSupported").details)
 //@ ensures istype(err, "*Aborted") ==> (result.Error == "aborted" && result.Details == unbox(err, "*Aborted").details)
 //@ ensures istype(err, "*NotOwner") ==> (result.Error == "not owner" && result.Details == unbox(err, "*NotOwner").details)
